@@ -86,6 +86,8 @@ type FieldExpression struct {
 // the FieldName string, and returns the result.
 func (e *FieldExpression) Evaluate(ctx *Context, input system.Collection) (system.Collection, error) {
 	output := system.Collection{}
+	var missing error // first "not a field" complaint
+	known := false    // some item's type has the field
 
 	for _, item := range input {
 		message, ok := item.(proto.Message)
@@ -130,6 +132,7 @@ func (e *FieldExpression) Evaluate(ctx *Context, input system.Collection) (syste
 					if refString != nil {
 						output = append(output, refString)
 					}
+					known = true
 					continue
 				}
 			}
@@ -143,15 +146,19 @@ func (e *FieldExpression) Evaluate(ctx *Context, input system.Collection) (syste
 				switch v := message.(type) {
 				case *dtpb.Date:
 					output = append(output, system.String(fhirconv.DateToString(v)))
+					known = true
 					continue
 				case *dtpb.DateTime:
 					output = append(output, system.String(fhirconv.DateTimeToString(v)))
+					known = true
 					continue
 				case *dtpb.Time:
 					output = append(output, system.String(fhirconv.TimeToString(v)))
+					known = true
 					continue
 				case *dtpb.Instant:
 					output = append(output, system.String(fhirconv.InstantToString(v)))
+					known = true
 					continue
 				}
 			}
@@ -170,9 +177,17 @@ func (e *FieldExpression) Evaluate(ctx *Context, input system.Collection) (syste
 			fieldName = fieldName + "_value"
 			field = reflect.Descriptor().Fields().ByName(protoreflect.Name(fieldName))
 			if field == nil {
-				return nil, fmt.Errorf("%w: %s not a field on %T", ErrInvalidField, fieldName, message)
+				// The name is not an element of this item's type. In a collection of
+				// mixed types (contained resources, Bundle entries) it may be an
+				// element of another item's type: only a name that no item knows is
+				// an error.
+				if missing == nil {
+					missing = fmt.Errorf("%w: %s not a field on %T", ErrInvalidField, fieldName, message)
+				}
+				continue
 			}
 		}
+		known = true
 
 		// If the field is not a message, it is a primitive (enum or go native type).
 		// So, it can be cast to a system type. Otherwise, a field is being accessed that
@@ -221,6 +236,9 @@ func (e *FieldExpression) Evaluate(ctx *Context, input system.Collection) (syste
 			}
 			output = append(output, unwrapped)
 		}
+	}
+	if missing != nil && !known {
+		return nil, missing
 	}
 	return output, nil
 }
